@@ -1,7 +1,7 @@
 (* C15 proofs, part b: create_MD_tag read back column-wise reconstructs the reference. *)
 From Coq Require Import ZArith NArith List Bool Lia Decimal DecimalN.
 Import ListNotations.
-From SCMO Require Import Lib.Val Lib.PyInt Model.C15.
+From SCMO Require Import Lib.Val Lib.PyInt Model.C15 Proofs.C15_g.
 Open Scope Z_scope.
 
 Lemma codes_uint_codes u : codes_uint (uint_codes u) = u.
@@ -18,13 +18,13 @@ Proof. unfold pend_value, num. now rewrite codes_uint_codes, DecimalN.Unsigned.o
 
 Lemma pend_value_flush n : pend_value (flush_num n) = N.to_nat n.
 Proof.
-  unfold flush_num. destruct (0 <? n)%N eqn:E.
+  rewrite flush_num_spec. destruct (0 <? n)%N eqn:E.
   - apply pend_value_num.
   - apply N.ltb_ge in E. assert (n = 0%N) by lia. subst n. reflexivity.
 Qed.
 
 Lemma flush_digits n : Forall (fun c => is_digit c = true) (flush_num n).
-Proof. unfold flush_num, num. destruct (0 <? n)%N; [apply uint_codes_digits|constructor]. Qed.
+Proof. rewrite flush_num_spec. unfold num. destruct (0 <? n)%N; [apply uint_codes_digits|constructor]. Qed.
 
 (* a run of digits is collected into the pending number *)
 Lemma md_dec_digits : forall ds rest pend q, Forall (fun c => is_digit c = true) ds ->
@@ -50,7 +50,7 @@ Proof.
     rewrite <- (app_nil_r (flush_num nc)), md_dec_digits by apply flush_digits.
     cbn [md_dec]. rewrite app_nil_l, pend_value_flush, <- Hpre, Nat.eqb_refl. reflexivity.
   - destruct q as [|b q]; [discriminate|]. injection Hlen as Hlen.
-    inversion Hlet as [|? ? Hr Hlet']; subst. cbn [md_go map].
+    inversion Hlet as [|? ? Hr Hlet']; subst. cbn [md_go map]. rewrite shape_md_match.
     destruct (upper r =? b) eqn:E.
     + apply Z.eqb_eq in E. subst b.
       replace (pre ++ upper r :: q) with ((pre ++ [upper r]) ++ q) by (now rewrite <- app_assoc).
@@ -83,7 +83,7 @@ Qed.
    coverage 0..2 and 6..8 of reference AAACCCGGG, consensus equal to the reference *)
 Lemma md_old_refuted :
   let ref := fun p => nth (Z.to_nat p) [65;65;65;67;67;67;71;71;71] 78 in
-  let p := mkPartial 0 (Some 9) [65;65;65;71;71;71] [CM 3; CN 3; CM 3] [(0,3);(6,9)] in
+  let p := mkPartial 0 (Some 9) [65;65;65;71;71;71] [30;30;30;30;30;30] [CM 3; CN 3; CM 3] [(0,3);(6,9)] in
   md_decode (md_old ref p) (pa_seq p) <> Some (map ref (expand (pa_start p) (pa_cigar p))) /\
   md_decode (md_tag (map ref (block_positions (pa_md p))) (pa_seq p)) (pa_seq p)
     = Some (map ref (expand (pa_start p) (pa_cigar p))).
